@@ -271,6 +271,8 @@ class Life:
             st["conn"] = row["c"]
         if form == "token":
             st["token"] = f"k_{row['c']}"
+            if row.get("same_conn"):
+                st["conn"] = row["c"]
         if form == "authconn" and row["fe"] == "ws":
             # a refused AUTH is not answered on the WebSocket front end: do not wait long for it
             refused = cred == "badauth" or row["who"] == "ghost" or (row["who"] == "subj" and not self.subject_live)
